@@ -78,6 +78,8 @@ def runModel (cfg : Cfg) (op : String) (args : List Num) : String :=
   | "denominator", [a] => showRes Num.show (denominator a)
   | "isqrt", [a] => showRes (fun p => s!"({p.1.show} {p.2.show})") (exactIntegerSqrt a)
   | "id", [a] => a.show
+  | "roundtrip", [a] => a.show
+  | "tostr", [a] => "\"" ++ a.show ++ "\""
   -- specialised paths, reachable when the right operand is a small non-negative literal
   | "subimm", [a, .fix r] => showRes Num.show (subImmediate a r)
   | "addimm", [a, .fix r] => showRes Num.show (addImmediate a r)
@@ -123,7 +125,8 @@ def runSpec (op : String) (args : List Rat) : String :=
       let s := Nat.sqrt a.num.toNat
       s!"({s} {a.num.toNat - s * s})"
     else "undef"
-  | "id", [a] => showRat a
+  | "id", [a] | "roundtrip", [a] => showRat a
+  | "tostr", [a] => "\"" ++ showRat a ++ "\""
   | _, _ => "bad"
 
 def handle (cfg : Cfg) (line : String) : String :=
